@@ -63,6 +63,22 @@ SNIPPETS = [
     ("in-if", ["if len([]) == 0:", "  (1).nonsense", "else:", "  ('s').frob"]),
     ("in-method", ["class _K:", "  def m(self):", "    return self.nope",
                    "_K().m()"]),
+    # errors raised while evaluating string (forward-reference) annotations
+    ("fwdref-param", ["def _fr(x: 'UndefinedZ'): pass"]),
+    ("fwdref-var", ["_fv: 'ZedZ' = None"]),
+    ("fwdref-return", ["def _frr() -> 'UnknownZ': pass"]),
+    ("fwdref-nested", ["def _fn(x: 'list[UnknownQ]') -> 'UnknownR': pass"]),
+    # one error on the first decorator line, another on the def line
+    ("decorator-line", ["def _dd(a):", "  def w(f): return f", "  return w",
+                        "@_dd((1).nonsense)", "def _dh(x=(2).frob): return x"]),
+    ("decorator-line-args", ["def _ni(a: int):", "  def w(f): return f",
+                             "  return w", "@_ni('s')",
+                             "def _di(x=_ni('t')): return x"]),
+    ("decorator-two", ["def _d3(f): return f", "@_d3", "@(1).nonsense",
+                       "def _dj(): return (2).frob"]),
+    ("class-decorator", ["def _cd(c): return c", "@_cd",
+                         "class _KD((1).nonsense if False else object):",
+                         "  y = (3).frob"]),
 ]
 
 
